@@ -158,7 +158,7 @@ func negotiateFeatures(ctx context.Context, s *Session, first, ws bool, features
 			// If we received an empty list (or one with no supported features), we're
 			// done.
 			return Ready, nil, nil
-		case len(list.cache) == 0:
+		case !list.anyEligible(s.State()):
 			// If we received a list with features we support but where none of them
 			// could be negotiated (eg. they were advertised in the wrong order), this
 			// is an error:
@@ -311,6 +311,17 @@ type streamFeaturesList struct {
 	cache map[string]sfData
 }
 
+// anyEligible reports whether the prerequisites of at least one of the cached
+// features are met in the given state.
+func (l *streamFeaturesList) anyEligible(state SessionState) bool {
+	for _, v := range l.cache {
+		if state&v.feature.Necessary == v.feature.Necessary && state&v.feature.Prohibited == 0 {
+			return true
+		}
+	}
+	return false
+}
+
 func getFeature(name xml.Name, features []StreamFeature) (feature StreamFeature, ok bool) {
 	for _, f := range features {
 		if f.Name == name {
@@ -425,19 +436,18 @@ parsefeatures:
 				}
 				sf.req = sf.req || req
 
-				if s.state&feature.Necessary == feature.Necessary &&
-					s.state&feature.Prohibited == 0 {
-
-					sf.cache[tok.Name.Space] = sfData{
-						req:     req,
-						feature: feature,
-					}
-
-					// Since we do support the feature, add it to the connections list
-					// along with any data returned from Parse.
-					s.features[tok.Name.Space] = data
-					continue parsefeatures
+				// Remember every feature we support: whether its prerequisites are
+				// met is decided when a feature is selected, because negotiating
+				// another feature of the same list may change the state.
+				sf.cache[tok.Name.Space] = sfData{
+					req:     req,
+					feature: feature,
 				}
+
+				// Since we do support the feature, add it to the connections list
+				// along with any data returned from Parse.
+				s.features[tok.Name.Space] = data
+				continue parsefeatures
 			}
 			// Advance to the end of the feature element (in case the parse function
 			// didn't consume the entire feature or we did not support the feature and
